@@ -16,7 +16,7 @@ import (
 //	value | position
 
 var panicValues = []string{"nil", "nilerror", "string", "int", "error", "nilmap", "index", "nilderef", "divzero", "assert", "closenil", "repanic"}
-var panicPositions = []string{"first", "afteryield", "inloop", "delegate", "incase", "consumerbody", "cond", "operand", "post", "deferred"}
+var panicPositions = []string{"first", "afteryield", "inloop", "delegate", "incase", "consumerbody", "cond", "operand", "post", "deferred", "rangearrkey", "rangearrkv", "rangeslice", "yieldfromarg"}
 
 const panicExtra = `package src
 
@@ -27,6 +27,10 @@ import (
 )
 
 var errBoom = errors.New("boom")
+
+func boomArr(c *rt.Ctx, k int) [2]int { return [2]int{boom(c, k), 7} }
+
+func boomIter[T any](c *rt.Ctx, k int, it T) T { boom(c, k); return it }
 
 // boom panics with the value of kind k if the environment says so, and returns k otherwise
 func boom(c *rt.Ctx, k int) int {
@@ -134,6 +138,25 @@ func panicText(id string, k int, pos string) string {
 		w(1, "for i := 0; i < 2; i += 1 + 0*%s {", b)
 		w(2, "Yield(c.W(1, i))")
 		w(1, "}")
+	case "rangearrkey": // key-only range over an array-valued call: the operand is still evaluated once
+		w(1, "Yield(c.W(1, 1))")
+		w(1, "for i := range boomArr(c, %d) {", k)
+		w(2, "Yield(c.W(2, i))")
+		w(1, "}")
+	case "rangearrkv":
+		w(1, "Yield(c.W(1, 1))")
+		w(1, "for i, v := range boomArr(c, %d) {", k)
+		w(2, "Yield(c.W(2, i+v))")
+		w(1, "}")
+	case "rangeslice":
+		w(1, "Yield(c.W(1, 1))")
+		w(1, "for range boomArr(c, %d)[:] {", k)
+		w(2, "Yield(c.W(2, 0))")
+		w(1, "}")
+	case "yieldfromarg":
+		w(1, "Yield(c.W(1, 1))")
+		w(1, "YieldFrom(boomIter(c, %d, %s_sub(c)))", k, id)
+		w(1, "Yield(c.W(2, 2))")
 	case "deferred": // a plain closure of the generator whose deferred call panics
 		w(1, "Yield(c.W(1, 1))")
 		w(1, "func() {")
